@@ -3,6 +3,7 @@
 # Re-introduces a repaired defect in the scratch worktree (git revert --no-commit of one fix: commit) and runs the given
 # checks against it in the sandbox: a check that was strengthened after the repair must still catch the original defect.
 set -u
+exec 9>/tmp/evalrepo.lock; flock 9   # /tmp/evalrepo and /tmp/evalsb are shared: one user at a time
 V="$(cd "$(dirname "$0")/.." && pwd)"
 commit="$1"; tier="$2"; shift 2
 [ -d /tmp/evalrepo ] || git -C /repo worktree add --detach /tmp/evalrepo HEAD -q || exit 2
